@@ -18,6 +18,9 @@ OPS = {
     "transpose": ("OTranspose", ""), "neg": ("ONeg", ""), "add": ("OAdd", "m"), "sub": ("OSub", "m"),
     "scale": ("OScale", "s"), "div": ("ODiv", "s"), "mul": ("OMul", "m"), "mul_l": ("OMulL", "m"),
     "eye": ("OEye", "n"), "numel": ("ONumel", ""), "clone_mut": ("OCloneMut", "s"),
+    # both operands the SAME object (&m + &m, &m - &m, &m * &m): the argument (kind 'M') is the current matrix, written out for the
+    # Coq side only -- the executor takes both operands from the one register
+    "add_self": ("OAdd", "M"), "sub_self": ("OSub", "M"), "mul_self": ("OMul", "M"),
 }
 
 def op_line(elt, op):
@@ -29,6 +32,7 @@ def op_line(elt, op):
         elif k == "s": toks.append(tok_scalar(elt, a))
         elif k == "v": toks.append(tok_vec(elt, a))
         elif k == "m": toks.append(tok_mat(elt, a))
+        # 'M': nothing on the executor side
     toks.append(";")
     return " ".join(toks)
 
@@ -41,7 +45,7 @@ def op_coq(elt, op):
         elif k == "z": parts.append(coq_Z(a))
         elif k == "s": parts.append(coq_scalar(elt, a))
         elif k == "v": parts.append(coq_vec(elt, a))
-        elif k == "m": parts.append(coq_mat(elt, a))
+        elif k in "mM": parts.append(coq_mat(elt, a))
     return "(" + " ".join(parts) + ")"
 
 def hist_line(elt, m0, ops):
@@ -146,6 +150,12 @@ def ref_step(m, op, zero=Fraction(0), one=Fraction(1)):
     if name == "transpose":
         t = RefMat(m.c, m.r, [m.rows[i][j] for j in range(m.c) for i in range(m.r)]); return ('m', t)
     if name == "neg": return ('m', RefMat(m.r, m.c, [-x for x in m.flat()]))
+    if name in ("add_self", "sub_self"):
+        sg = 1 if name == "add_self" else -1
+        return ('m', RefMat(m.r, m.c, [x + sg * x for x in m.flat()]))
+    if name == "mul_self":
+        _chk(m.c == m.r)
+        return ('m', RefMat(m.r, m.c, [sum((m.rows[i][k] * m.rows[k][j] for k in range(m.c)), zero) for i in range(m.r) for j in range(m.c)]))
     if name in ("add", "sub"):
         b = RefMat(*a[0]); _chk(b.r == m.r and b.c == m.c)
         sg = 1 if name == "add" else -1
@@ -214,4 +224,81 @@ def streams_equal_exact(exp, got):
         if a[0] == 'P' and b[0] == 'P': continue
         if a != b:
             return "item %d: reference %r, implementation %r" % (k, a, b)
+    return None
+
+# ------------------------------------------------------------------ float / complex element kinds (round four, package specA)
+def state_after(m0, ops, zero=Fraction(0), one=Fraction(1)):
+    """the reference matrix after a history (a panicking step leaves the matrix alone)"""
+    m = RefMat(*m0)
+    for op in ops:
+        snap = m.copy()
+        try: ref_step(m, op, zero, one)
+        except RefPanic: m = snap
+    return m
+
+def ref_hist_float(elt, m0, ops):
+    """expected stream of a history at f64 / Complex<f64>: the same list-of-rows semantics evaluated with numpy scalars
+    (IEEE: x/0 = inf, no exception).  Items: ('i', n) | ('x', value) | ('P', 'guard')"""
+    import numpy as np
+    conv = np.float64 if elt == 'f64' else np.complex128
+    def cv(a, k):
+        if k == 's': return conv(a)
+        if k == 'v': return [conv(x) for x in a]
+        if k in 'mM': return (a[0], a[1], [conv(x) for x in a[2]])
+        return a
+    def items_mat(m): return [('i', m.r), ('i', m.c)] + [('x', x) for x in m.flat()]
+    def items_val(v):
+        if v is None: return []
+        if v[0] == 's': return [('x', v[1])]
+        if v[0] == 'v': return [('i', len(v[1]))] + [('x', x) for x in v[1]]
+        if v[0] == 'm': return items_mat(v[1])
+        if v[0] == 'n': return [('i', v[1])]
+    with np.errstate(all='ignore'):
+        m = RefMat(m0[0], m0[1], [conv(x) for x in m0[2]])
+        out = items_mat(m)
+        for op in ops:
+            kinds = OPS[op[0]][1]
+            op2 = (op[0],) + tuple(cv(a, k) for k, a in zip(kinds, op[1:]))
+            snap = m.copy()
+            try:
+                out += items_val(ref_step(m, op2, conv(0), conv(1)))
+            except RefPanic:
+                m = snap
+                out += [('P', 'guard')]
+            out += items_mat(m)
+    return out
+
+def streams_close_float(elt, exp, got, rel=1e-9):
+    """tolerant comparison of an f64 / Complex<f64> history with its reference: integers and panic positions exactly; a float within
+    rel * (largest finite magnitude of the whole history) -- the operations are entrywise sums/products of the operands, so the
+    rounding error of an entry is bounded relative to the largest magnitude that ever occurred.  Items where reference or
+    implementation is not finite are compared for finiteness only.  Returns None or a description."""
+    import math
+    per = 1 if elt == 'f64' else 2
+    vals = []
+    for it in exp:
+        if it[0] == 'x':
+            z = complex(it[1])
+            if math.isfinite(z.real) and math.isfinite(z.imag): vals.append(abs(z))
+    scale = max(vals, default=0.0)
+    if not math.isfinite(scale) or scale > 1e150: return None      # overflow territory: outside the quantifier ("all element values" of moderate size)
+    k = 0
+    for n, it in enumerate(exp):
+        if it[0] == 'P':
+            if k >= len(got) or got[k][0] != 'P': return "item %d: the reference refuses (guard), the implementation answered %r" % (n, got[k:k+2])
+            k += 1; continue
+        if it[0] == 'i':
+            if k >= len(got) or got[k] != it: return "item %d: reference %r, implementation %r" % (n, it, got[k:k+1])
+            k += 1; continue
+        if k + per > len(got) or any(g[0] != 'f' for g in got[k:k+per]):
+            return "item %d: reference value %r, implementation %r" % (n, it[1], got[k:k+per])
+        z = complex(bits_f64(got[k][1]), bits_f64(got[k+1][1]) if per == 2 else 0.0)
+        k += per
+        e = complex(it[1])
+        fin_e = math.isfinite(e.real) and math.isfinite(e.imag); fin_z = math.isfinite(z.real) and math.isfinite(z.imag)
+        if fin_e and fin_z:
+            if abs(z - e) > rel * max(scale, 1e-300): return "item %d: reference %r, implementation %r (scale of the history %g)" % (n, e, z, scale)
+        elif fin_e != fin_z:
+            return "item %d: reference %r, implementation %r (finite versus not finite)" % (n, e, z)
+    if k != len(got): return "the implementation returned %d items, the reference describes %d" % (len(got), k)
     return None
